@@ -49,6 +49,11 @@ def main():
                     steps = max(2, int(e0max * 64))
                     a = rng.randint(0, steps - 1)
                     b = rng.randint(a + 1, steps + 4)
+                    if mode == 10:
+                        # mode 10 rejects its single positron under the maximum of the whole spectrum (as the reference does): a narrow
+                        # window in a tail costs up to 2e6 deviates per event; keep these windows wide (C04 owns the work question)
+                        a = rng.randint(0, steps // 3)
+                        b = a + rng.randint(max(1, steps // 3), steps)
                     lines.append(genmon.dbd_line(table, iso, level, mode, (a / 64.0, b / 64.0), TOL))
                     if rng.uniform() < (0.04 if quick else 1.0):
                         # one-sided windows through the API (the other limit left NaN); each is nested in the full range
